@@ -304,6 +304,11 @@ func TestC18_Options(t *testing.T) {
 	rapid.Check(t, func(t *rapid.T) {
 		p := structProfile()
 		p.MaxLen = 4
+		hookFocus := rapid.IntRange(0, 3).Draw(t, "hookFocus") == 0
+		if hookFocus || rapid.Bool().Draw(t, "dynamicDoc") {
+			// nested map[string]interface{} / []interface{} documents: the shape whose values the unwrap hook's wrappers replace
+			p = uni.Profile{Depth: 3, JSON: true, NilLeaves: true, MaxLen: 4}
+		}
 		root := uni.GenDatum(t, p)
 		// option list (the budget is filled in once the expression's step count is known)
 		n := rapid.IntRange(0, 5).Draw(t, "nopts")
@@ -323,8 +328,17 @@ func TestC18_Options(t *testing.T) {
 				specs = append(specs, optSpec{Kind: "nil"})
 			}
 		}
+		if hookFocus {
+			// the value-transformation hook is what this case is about: make sure it is the effective one
+			specs = append(specs, optSpec{Kind: "hook", Hook: int(ref.HookUnwrap)})
+		}
 		g := gen.NewExprGen(t, root, effective(specs).Tag)
-		e := g.Expr(rapid.IntRange(1, 3).Draw(t, "depth"))
+		var e bx.Expr
+		if hookFocus && rapid.Bool().Draw(t, "hookQuant") {
+			e = g.Quant(2)
+		} else {
+			e = g.Expr(rapid.IntRange(1, 3).Draw(t, "depth"))
+		}
 		rend := bx.NewRenderer(chooser(t))
 		rend.MaxParen = 1
 		text, _ := rend.Render(e)
